@@ -41,9 +41,13 @@ def sweep(ctx, binary, prop, count, seed_salt=0, timeout=1800):
     cells, outcomes = {}, {}
     viol, samples = [], []
     lost = 0
+    from .shm import crash_violations
+    viol += crash_violations(parts)
     for p in parts:
         if p is None:
             lost += 1
+            continue
+        if p.get("_crashed"):
             continue
         for k in agg:
             agg[k] += p.get(k, 0)
